@@ -41,7 +41,7 @@ Hypothesis Hwf : wf_input rules prods ms = true.
    takes the type of term x, sliced or not.  Independent of the table. *)
 
 Definition fty (rt : rtypes) (x : bool * nat) : ity :=
-  if fst x then IT tok else rt_get rt (snd x).
+  if fst x then IT (terminal_ty tok err (snd x)) else rt_get rt (snd x).
 
 Definition value (sl : bool) (e : ity) : ity := if sl then islice o e else e.
 
@@ -117,7 +117,7 @@ Proof.
   2:{ simpl in H. rewrite Hn in H. discriminate. }
   assert (Hplus : is_plus (br_kind r) ->
                   exists x sl, source_rel k pi x sl /\ t = value sl (fty rt x)).
-  { intros Hk. destruct (reduce_plus_inv _ _ _ _ _ _ _ _ _ _ Hn Hk H Ht) as
+  { intros Hk. destruct (reduce_plus_inv _ _ _ _ _ _ _ _ _ _ _ Hn Hk H Ht) as
         [q [rest [p [x [xs [e [Hp [Hnp [Hx [He Hsp]]]]]]]]]].
     apply first_term_spec_fty in Hsp. subst e.
     exists x, true. split; auto. exists r. split; auto. right; left.
@@ -171,7 +171,7 @@ Proof.
       destruct (br_kind rc); auto; try (inversion Hin; congruence);
         rewrite Hpc in Hin; apply Nat.eqb_neq in Hne; rewrite Hne in Hin;
         simpl in Hin; inversion Hin; congruence. }
-    destruct (reduce_plus_inv _ _ _ _ _ _ _ _ _ _ Hnc Hkc Hin Ht) as
+    destruct (reduce_plus_inv _ _ _ _ _ _ _ _ _ _ _ Hnc Hkc Hin Ht) as
         [q' [rest'' [pc [x [xs' [e [Hp' [Hnp' [Hx' [He Hsp]]]]]]]]]].
     apply first_term_spec_fty in Hsp. subst e.
     exists x, true. split; auto. exists r. split; auto. right; right.
